@@ -24,8 +24,12 @@ OWN = ["none", "c", "l", "both", "bad", "bin"]
 SIB = ["absent", "empty", "c", "full"]
 PREC = ["closest", "aggregate", "override"]
 INFO = ["none", "c", "l", "both"]
-DIRS = ["", "d1/", "d1/d2/"]
-FDIR = "d1/d2/"
+DIR_VARIANTS = [("d1", "d2"), ("Lib", "3rdparty"), (".config", "A b")]
+
+
+def dirs_of(case):
+    a, b = DIR_VARIANTS[case.get("dirs", 0)]
+    return ["", f"{a}/", f"{a}/{b}/"]
 T_LIC = ["MIT", "Zlib", "X11"]
 D_LIC = ["curl", "Beerware", "Unlicense"]
 
@@ -55,11 +59,18 @@ def cases(tier, seed):
         o = level_options(False)
         for ch in itertools.product(o, repeat=3):
             yield {"chain": list(ch)}
+        # directory names that sort before / after 'REUSE.toml', with blanks and a leading dot
+        for dv in range(1, len(DIR_VARIANTS)):
+            for ch in itertools.product(o, repeat=3):
+                if sum(1 for x in ch if x is not None) >= 2:
+                    yield {"chain": list(ch), "dirs": dv}
         od = level_options(True)
         for ch in itertools.product(od, repeat=2):
             if all(x is None or len(x) == 1 for x in ch):
                 continue
             yield {"chain": [None, *ch]}
+            # the same with the decoy (first) table naming the files literally and the last table a glob
+            yield {"chain": [None, *ch], "literal_decoy": True}
         # seed slice: decoys on the outermost level, one fixed inner option pair rotated by seed
         inner = od[1 + seed % (len(od) - 1)]
         for x in od:
@@ -69,6 +80,13 @@ def cases(tier, seed):
         od = level_options(True)
         for ch in itertools.product(od, repeat=3):
             yield {"chain": list(ch)}
+        for ch in itertools.product(od, repeat=2):
+            if not all(x is None or len(x) == 1 for x in ch):
+                yield {"chain": [None, *ch], "literal_decoy": True}
+        o = level_options(False)
+        for dv in range(1, len(DIR_VARIANTS)):
+            for ch in itertools.product(o, repeat=3):
+                yield {"chain": list(ch), "dirs": dv}
     for n in (0, 1, 2):
         yield {"dep5": n}
     yield {"dep5": 1, "conflict": True}
@@ -109,12 +127,13 @@ def table_info(level, i, decoy):
     return c, l
 
 
-def toml_text(level, tables):
+def toml_text(level, tables, literal_paths=None):
     out = ["version = 1", ""]
     for k, (p, i) in enumerate(tables):
         decoy = len(tables) == 2 and k == 0
         c, l = table_info(level, i, decoy)
-        out += ["[[annotations]]", 'path = "**"', f'precedence = "{p}"']
+        path = json.dumps(literal_paths) if (decoy and literal_paths) else '"**"'
+        out += ["[[annotations]]", f"path = {path}", f'precedence = "{p}"']
         if c:
             out.append("SPDX-FileCopyrightText = %s" % json.dumps(sorted(c)[0]))
         if l:
@@ -162,6 +181,8 @@ def evaluate(case) -> R:
     if "dep5" in case:
         return evaluate_dep5(case)
     chain = case["chain"]
+    DIRS = dirs_of(case)
+    FDIR = DIRS[2]
     r = R()
     root = fresh_dir("c04")
     recipe = {}
@@ -171,7 +192,11 @@ def evaluate(case) -> R:
             model_chain.append(None)
             continue
         tables = [tuple(t) for t in tables]
-        recipe[DIRS[level] + "REUSE.toml"] = toml_text(level, tables)
+        lit = None
+        if case.get("literal_decoy"):
+            rel = FDIR[len(DIRS[level]):]
+            lit = [rel + fname(o, s_) for o in OWN for s_ in SIB]
+        recipe[DIRS[level] + "REUSE.toml"] = toml_text(level, tables, lit)
         p, i = tables[-1]
         c, l = table_info(level, i, False)
         model_chain.append((p, c, l, DIRS[level] + "REUSE.toml"))
@@ -200,7 +225,7 @@ def evaluate(case) -> R:
                 r.violation(f"duplicate-item|O={o},L={s}|{sh}", f"{path}: duplicated items {items}")
             mc, ml, oc, ol = ref.expected((path, path + ".license"), own_info(o), sib_info(s), model_chain)
             r.validated += 1
-            r.state_keys.append([o, s, chain])
+            r.state_keys.append([o, s, chain, case.get("dirs", 0), bool(case.get("literal_decoy"))])
             ok = mc <= got_c <= (mc | oc) and ml <= got_l <= (ml | ol)
             if not ok:
                 r.violation(
@@ -225,6 +250,7 @@ DEP5_HEAD = "Format: https://www.debian.org/doc/packaging-manuals/copyright-form
 def evaluate_dep5(case) -> R:
     from ..cli import run_cli
 
+    FDIR = "d1/d2/"
     r = R()
     n = case["dep5"]
     root = fresh_dir("c04")
